@@ -2,8 +2,8 @@
    `X.to_dict(dialect=D)` on a class whose Config.dialect is B  =  the twin class whose default dialect is
    B.merge(D), called without dialect (kernels K2, K3, K5; hand model merge_strategies). *)
 From Coq Require Import List String ZArith Bool.
-From Verif Require Import PyK PyK_strat DialectMerge DialectTwin DialectLayer.
-From VerifGen Require Import K2 K3 K5 K13.
+From Verif Require Import PyK PyK_strat PyK_dictops DialectMerge DialectTwin DialectLayer DialectLayerK5 DialectMergeK.
+From VerifGen Require Import K2 K3 K5 K13 K113a.
 Import ListNotations.
 Open Scope nat_scope.
 Open Scope string_scope.
@@ -68,6 +68,109 @@ Theorem C13_merged_sources_are_code :
     gen_items g = [dget mmap ft; dget cmap ft; dget ddmap ft] /\ gen_tail g = None.
 Proof. exact merged_sources_are_code. Qed.
 Print Assumptions C13_merged_sources_are_code.
+
+(* ---- first_hit IS the translated consumer loop of pack.py / unpack.py (K5) ---- *)
+Theorem C13_first_hit_is_code :
+  forall dl cfg dd md ann ty orig ct typ srcs K,
+    get_overridden_serialization_method_for_strategy dl cfg dd md ann ty orig ct typ K (gen_of (map emb srcs)) KNone =
+      match first_hit srcs "serialize" with ENone => K KNone | e => Ok (eff_ser e) end /\
+    get_overridden_deserialization_method_for_strategy dl cfg dd md ann ty orig ct typ K (gen_of (map emb srcs)) KNone =
+      match first_hit srcs "deserialize" with ENone => K KNone | e => Ok (eff_de e) end.
+Proof. intros. split; [apply first_hit_is_pack_code | apply first_hit_is_unpack_code]. Qed.
+Print Assumptions C13_first_hit_is_code.
+
+(* ---- end to end over translated generator + translated consumer: `dialect=D` on a class whose Config.dialect is B
+        cannot be told from the twin whose Config.dialect is B.merge(D) (strategy map = merge_strategies) ---- *)
+Theorem C13_layered_code_end_to_end :
+  forall (d b m cfg dd: list (string * kv)) (c o cm dm: smap) (k: nat),
+    ns_get d "serialization_strategy" = Some (KDict (emb_map o)) ->
+    ns_get b "serialization_strategy" = Some (KDict (emb_map c)) ->
+    ns_get m "serialization_strategy" = Some (KDict (emb_map (merge_strategies c o))) ->
+    ns_get cfg "dialect" = Some (KNs b) ->
+    ns_get cfg "serialization_strategy" = Some (KDict (emb_map cm)) ->
+    ns_get dd "serialization_strategy" = Some (KDict (emb_map dm)) ->
+    forall md ann ty orig ct typ K, well_formed c o k ->
+    let twin_cfg := ns_set cfg "dialect" (KNs m) in
+    (layer_ok (sm_get c k) (sm_get o k) "serialize" = true ->
+     get_overridden_serialization_method_for_strategy (KNs d) (KNs cfg) (KNs dd) md ann ty orig ct typ K
+       (iter_serialization_strategies_inner (KNs d) (KNs cfg) (KNs dd) (tkey k)) KNone =
+     get_overridden_serialization_method_for_strategy KNone (KNs twin_cfg) (KNs dd) md ann ty orig ct typ K
+       (iter_serialization_strategies_inner KNone (KNs twin_cfg) (KNs dd) (tkey k)) KNone) /\
+    (layer_ok (sm_get c k) (sm_get o k) "deserialize" = true ->
+     get_overridden_deserialization_method_for_strategy (KNs d) (KNs cfg) (KNs dd) md ann ty orig ct typ K
+       (iter_serialization_strategies_inner (KNs d) (KNs cfg) (KNs dd) (tkey k)) KNone =
+     get_overridden_deserialization_method_for_strategy KNone (KNs twin_cfg) (KNs dd) md ann ty orig ct typ K
+       (iter_serialization_strategies_inner KNone (KNs twin_cfg) (KNs dd) (tkey k)) KNone).
+Proof.
+  intros d b m cfg dd c o cm dm k Hd Hb Hm Hcd Hcs Hdd md ann ty orig ct typ K W. cbn zeta. split; intros OK.
+  - exact (layered_pack_end_to_end d b m cfg dd c o cm dm k Hd Hb Hm Hcd Hcs Hdd md ann ty orig ct typ K W OK).
+  - exact (layered_unpack_end_to_end d b m cfg dd c o cm dm k Hd Hb Hm Hcd Hcs Hdd md ann ty orig ct typ K W OK).
+Qed.
+Print Assumptions C13_layered_code_end_to_end.
+
+(* ---- the hand model merge_strategies IS the translated strategy part of Dialect.merge (K113a), for all maps ---- *)
+Theorem C13_merge_strategies_is_code :
+  forall c o, merge_strategy_maps (KDict (emb_map c)) (KDict (emb_map o)) = Ok (KDict (emb_map (merge_strategies c o))).
+Proof. exact merge_strategies_is_code. Qed.
+Print Assumptions C13_merge_strategies_is_code.
+
+(* ---- ... so the end-to-end statement needs no hand model at all: the twin's dialect carries whatever the
+        translated Dialect.merge loops compute from B's and D's maps ---- *)
+Theorem C13_layered_code_end_to_end_K :
+  forall (d b m cfg dd: list (string * kv)) (c o cm dm: smap) (k: nat),
+    ns_get d "serialization_strategy" = Some (KDict (emb_map o)) ->
+    ns_get b "serialization_strategy" = Some (KDict (emb_map c)) ->
+    (forall mm, merge_strategy_maps (KDict (emb_map c)) (KDict (emb_map o)) = Ok mm ->
+                ns_get m "serialization_strategy" = Some mm) ->
+    ns_get cfg "dialect" = Some (KNs b) ->
+    ns_get cfg "serialization_strategy" = Some (KDict (emb_map cm)) ->
+    ns_get dd "serialization_strategy" = Some (KDict (emb_map dm)) ->
+    forall md ann ty orig ct typ K, well_formed c o k ->
+    let twin_cfg := ns_set cfg "dialect" (KNs m) in
+    (layer_ok (sm_get c k) (sm_get o k) "serialize" = true ->
+     get_overridden_serialization_method_for_strategy (KNs d) (KNs cfg) (KNs dd) md ann ty orig ct typ K
+       (iter_serialization_strategies_inner (KNs d) (KNs cfg) (KNs dd) (tkey k)) KNone =
+     get_overridden_serialization_method_for_strategy KNone (KNs twin_cfg) (KNs dd) md ann ty orig ct typ K
+       (iter_serialization_strategies_inner KNone (KNs twin_cfg) (KNs dd) (tkey k)) KNone) /\
+    (layer_ok (sm_get c k) (sm_get o k) "deserialize" = true ->
+     get_overridden_deserialization_method_for_strategy (KNs d) (KNs cfg) (KNs dd) md ann ty orig ct typ K
+       (iter_serialization_strategies_inner (KNs d) (KNs cfg) (KNs dd) (tkey k)) KNone =
+     get_overridden_deserialization_method_for_strategy KNone (KNs twin_cfg) (KNs dd) md ann ty orig ct typ K
+       (iter_serialization_strategies_inner KNone (KNs twin_cfg) (KNs dd) (tkey k)) KNone).
+Proof.
+  intros d b m cfg dd c o cm dm k Hd Hb Hm. apply (C13_layered_code_end_to_end d b m cfg dd c o cm dm k Hd Hb).
+  apply Hm. apply merge_strategies_is_code.
+Qed.
+Print Assumptions C13_layered_code_end_to_end_K.
+
+(* the translated loops on a concrete pair: D's dict is merged into B's dict per direction, D's dict replaces B's object *)
+Example C13_merge_code_nonvacuous :
+  merge_strategy_maps (KDict (emb_map [(1, SDict [("deserialize", 4)]); (2, SStrat 7)]))
+                      (KDict (emb_map [(2, SDict [("serialize", 5)]); (1, SDict [("serialize", 3)])])) =
+  Ok (KDict (emb_map [(1, SDict [("deserialize", 4); ("serialize", 3)]); (2, SDict [("serialize", 5)])])).
+Proof. vm_compute. reflexivity. Qed.
+
+(* where merge is not the layering the translated loop itself tells the two apart *)
+Example C13_layered_differs_in_code :
+  let c := [(1, SStrat 7)] in let o := [(1, SDict [("serialize", 3)])] in
+  get_overridden_deserialization_method_for_strategy KNone KNone KNone KNone KNone KNone KNone KNone KNone (fun v => Ok v)
+    (gen_of (map emb (layered_sources c o 1 []))) KNone = Ok (de_of 7) /\
+  get_overridden_deserialization_method_for_strategy KNone KNone KNone KNone KNone KNone KNone KNone KNone (fun v => Ok v)
+    (gen_of (map emb (merged_sources c o 1 []))) KNone = Ok KNone.
+Proof. exact layered_differs_in_code. Qed.
+
+(* the hypotheses of the end-to-end theorem are satisfiable, and the loops really return a callable of the lower source *)
+Example C13_layered_code_nonvacuous :
+  let o := [(1, SDict [("serialize", 3)])] in let c := [(1, SDict [("deserialize", 4)])] in
+  let d := [("serialization_strategy", KDict (emb_map o))] in
+  let b := [("serialization_strategy", KDict (emb_map c))] in
+  let cfg := [("dialect", KNs b); ("serialization_strategy", KDict (emb_map []))] in
+  let dd := [("serialization_strategy", KDict (emb_map []))] in
+  get_overridden_deserialization_method_for_strategy (KNs d) (KNs cfg) (KNs dd) KNone KNone KNone KNone KNone KNone (fun v => Ok v)
+    (iter_serialization_strategies_inner (KNs d) (KNs cfg) (KNs dd) (tkey 1)) KNone = Ok (fun_of 4) /\
+  get_overridden_serialization_method_for_strategy (KNs d) (KNs cfg) (KNs dd) KNone KNone KNone KNone KNone KNone (fun v => Ok v)
+    (iter_serialization_strategies_inner (KNs d) (KNs cfg) (KNs dd) (tkey 1)) KNone = Ok (fun_of 3).
+Proof. split; vm_compute; reflexivity. Qed.
 
 (* ---- non-vacuity ---- *)
 (* B says omit_none=True and nothing about aliases, D says serialize_by_alias=True and nothing about None:
